@@ -114,5 +114,46 @@ __CPROVER_requires(BRB_PRE(self, b))
 __CPROVER_ensures(/*the-given-block-is-asked-once-with-the-metadata-filter-keyed-by-this-section-s-id-and-a-none-block-is-not-asked*/ BRB_POST(self, b, Q_findSources))
 NIX_CANARY(Section_referringSources_b) __CPROVER_assigns(BR_ASSIGNS)
 ;
+/* the file-wide variants Section::referringDataArrays() / Tags() / MultiTags() / Sources(): the body of their loop over the blocks of the file (region units):
+   for each block the per-block query above is asked exactly once, for THAT block, and its answer is appended to the result. */
+typedef struct { int serial; size_t n; } vec_EntA;
+extern int gh_fw_calls, gh_fw_block, gh_fw_kind, gh_fw_appends, gh_fw_append_serial;
+#define FW_SERIAL 64
+static inline vec_EntA fw_query(const Ent *self, const Ent *b, int kind)
+{ gh_fw_calls++; gh_fw_block = b->tag; gh_fw_kind = kind; vec_EntA v; v.serial = FW_SERIAL; v.n = 0; return v; }
+static inline vec_EntA Section_referringDataArrays_blk(const Ent *self, const Ent *b)
+{ return fw_query(self, b, Q_dataArrays); }
+static inline vec_EntA Section_referringTags_blk(const Ent *self, const Ent *b)
+{ return fw_query(self, b, Q_tags); }
+static inline vec_EntA Section_referringMultiTags_blk(const Ent *self, const Ent *b)
+{ return fw_query(self, b, Q_multiTags); }
+static inline vec_EntA Section_referringSources_blk(const Ent *self, const Ent *b)
+{ return fw_query(self, b, Q_findSources); }
+static inline void vec_Ent_append(vec_Ent *dst, const vec_EntA *src)
+{ gh_fw_appends++; gh_fw_append_serial = src->serial; }
+#define FW_PRE(res) (__CPROVER_is_fresh(self, sizeof(Ent)) && __CPROVER_is_fresh(b, sizeof(Ent)) && __CPROVER_is_fresh(res, sizeof(vec_Ent)) && gh_fw_calls == 0 && gh_fw_appends == 0 && nix_exc == EXC_NONE)
+#define FW_POST(kind) __CPROVER_ensures(/*the-per-block-query-of-that-kind-is-asked-once-for-that-block-and-its-answer-appended*/ gh_fw_calls == 1 && gh_fw_block == b->tag && gh_fw_kind == (kind) && \
+                                        gh_fw_appends == 1 && gh_fw_append_serial == FW_SERIAL && nix_exc == EXC_NONE)
+#define FW_ASSIGNS nix_exc, gh_fw_calls, gh_fw_block, gh_fw_kind, gh_fw_appends, gh_fw_append_serial
+void section_filewide_arrays(const Section *self, Block *b, vec_DataArray *arrays)
+__CPROVER_requires(FW_PRE(arrays))
+FW_POST(Q_dataArrays)
+NIX_CANARY(section_filewide_arrays) __CPROVER_assigns(FW_ASSIGNS)
+;
+void section_filewide_tags(const Section *self, Block *b, vec_Tag *tags)
+__CPROVER_requires(FW_PRE(tags))
+FW_POST(Q_tags)
+NIX_CANARY(section_filewide_tags) __CPROVER_assigns(FW_ASSIGNS)
+;
+void section_filewide_mtags(const Section *self, Block *b, vec_MultiTag *tags)
+__CPROVER_requires(FW_PRE(tags))
+FW_POST(Q_multiTags)
+NIX_CANARY(section_filewide_mtags) __CPROVER_assigns(FW_ASSIGNS)
+;
+void section_filewide_sources(const Section *self, Block *b, vec_Source *srcs)
+__CPROVER_requires(FW_PRE(srcs))
+FW_POST(Q_findSources)
+NIX_CANARY(section_filewide_sources) __CPROVER_assigns(FW_ASSIGNS)
+;
 #undef RV
 #endif
